@@ -973,18 +973,31 @@ def _inside_interval_condition(
     if left_additional_constraint is not None:
         left_bound = mgr.And(left_additional_constraint, left_bound)
 
-    right_clock_exp, right_timing_exp, right_additional_constraint = relative_timing(
-        interval.upper
-    )
-    right_operand = mgr.LT if interval.is_right_open() else mgr.LE
-    right_bound = right_operand(right_clock_exp, right_timing_exp)
-    if right_additional_constraint is not None:
-        # right bound is active if the first_end has not been triggered yet OR
-        # the end has been triggered and the constraint is valid
-        right_bound = mgr.Or(
-            mgr.Not(right_additional_constraint),
-            right_bound,
-        )
+    if (
+        action_duration_exp is None
+        and first_end_timing is not None
+        and interval.upper == first_end_timing
+    ):
+        # the duration is variable and the first end timing is the end of the action
+        # itself: the action stops running when its end action is applied, and every
+        # event of the action requires it to be running, so the end of the interval
+        # needs no constraint on the clock
+        right_bound = mgr.TRUE()
+    else:
+        (
+            right_clock_exp,
+            right_timing_exp,
+            right_additional_constraint,
+        ) = relative_timing(interval.upper)
+        right_operand = mgr.LT if interval.is_right_open() else mgr.LE
+        right_bound = right_operand(right_clock_exp, right_timing_exp)
+        if right_additional_constraint is not None:
+            # right bound is active if the first_end has not been triggered yet OR
+            # the end has been triggered and the constraint is valid
+            right_bound = mgr.Or(
+                mgr.Not(right_additional_constraint),
+                right_bound,
+            )
 
     return mgr.And(
         left_bound,
